@@ -123,6 +123,10 @@ func Assert(c bool, msg string) {
 func Reach(tag string) { Reached = append(Reached, tag) }
 func Tag(tag string)   {}
 
+// MapOrder(true) makes gosym iterate maps in reverse insertion order until MapOrder(false): used to show
+// that a result does not depend on Go's unspecified map iteration order. Natively Go's own random order applies.
+func MapOrder(reverse bool) {}
+
 // Symbolic reports whether the harness runs under gosym in symbolic mode.
 func Symbolic() bool { return false }
 
